@@ -73,6 +73,14 @@ CHECKS['C12'] = ('proof', 'Builder as a state machine over its recipe state: eve
                  'model and configuration before/after each build, results compared with the stateless model.',
                  'partial: "inputs unchanged" is a statement about the Python heap - checked by snapshots on every run, not proved (no heap model of adv_shell).', '§5 C12')
 
+CHECKS['C06'] = ('proof', 'Structural theorems on the byte-exact builder model: include closure (every quoted include is a returned file or the '
+                 'model header), source includes the returned header, selector header includes returned support files; and two REFUTATIONS with the '
+                 'matching compiler-level probes: no include guard (header starts with a comment line for all inputs - K1), anonymous namespace for a '
+                 'global-scope encapsulee (K2) (Properties/C06.v). Leg B on the UNMODIFIED files: every header alone, twice, shell source, use from a second '
+                 'translation unit + link, three prefixes in one TU.',
+                 'partial: "compiles as C++17" is validated by g++ against a mock Dezyne runtime and a mock model header derived from the model-resolved plan, '
+                 'not proved. Known findings K1, K2, K8, K9 reproduced on every run.', '§5 C06')
+
 NOT_YET = {
 }
 
